@@ -2,8 +2,20 @@
 C13 – theorems that tie the model's assumptions to fact tables regenerated from the
 repository's source on every run (extract/main.go). Kept apart from C13.lean so that the
 property theorems and these obligations can be maintained independently.
+
+Besides the lock facts, Generated/StoreFacts (extract/store.go) carries
+* the bodies of the per-document loops of `store.Insert` / `Update` / `Delete` as classified phases
+  (`try s.segment.Store(val)`, `try s.emit(…)`): `C13.runDocs` runs a phase list on the store model, collecting the
+  documents `emit` is called for, and `C13.insert_loop_as_modelled` / `update_…` / `delete_…` prove that running the
+  regenerated lists gives the model's `storeInsert` / `swapAll` / `deleteAll` AND the event lists `insertEvents` /
+  `swapEvents` / `deleteEvents` of Model/Watch.lean – mutation and emission of a document happen in one iteration, so a
+  document rejected later in the batch does not take back the events of the earlier ones;
+* `store.emit`: a `range` over all of `store.streams` without `continue` / `break`;
+* `stream.Emit` / `Close`: lock first, then one `select` that tests `done` and sends / closes.
 -/
 import Uniflow.Generated.Locks
+import Uniflow.Generated.StoreFacts
+import Uniflow.Model.Watch
 
 /-! ## Step granularity tied to the source
 
@@ -19,4 +31,363 @@ theorem C13.atomic_sections :
     acquireSites.contains ("store.store", "Delete", "mu", 1) = true ∧
     (calls.filter (fun c => c.typ == "store.store" && c.callee == "store.stream.Emit")).all
       (fun c => c.held.contains "store.store.mu") = true := by
+  decide
+
+open Uniflow.Value Uniflow.Store Uniflow.Index Uniflow.Watch Uniflow.Generated.StoreFacts
+
+/-! ## The per-document loops of `Insert` / `Update` / `Delete`: mutate, then emit, in ONE iteration -/
+namespace C13
+
+inductive LStep where
+  | next (s : State) (ev : List (PList × Nat))
+  | stop (m : Mut)
+  | bad
+
+/-- one phase of a per-document loop body (Generated/StoreFacts `insertPhases` / `updatePhases` / `deletePhases`) on the
+store model; `ev` collects the documents `emit` was called for. Documents of the model are maps already, so the
+marshalling phase cannot fail; `emit` fails only for a document without id (excluded by the segment call before it) or
+a malformed watcher filter (outside the model, see Model/Watch.lean). -/
+def docPhase (ph : String) (s : State) (d : PList) (ev : List (PList × Nat)) : LStep :=
+  if ph = "val, err := types.Cast[types.Map](types.Marshal(doc))" ∨ ph = "fail-if err != nil: err" then .next s ev
+  else if ph = "try s.segment.Store(val)" then
+    (match segStore s d with | (s', none) => .next s' ev | r => .stop r)
+  else if ph = "try s.segment.Swap(doc)" then
+    (match segSwap s d with | (s', none) => .next s' ev | r => .stop r)
+  else if ph = "try s.segment.Delete(doc.Get(types.NewString(\"id\")))" then
+    (match segDelete s (mget d keyId) with | (s', none) => .next s' ev | r => .stop r)
+  else if ph = "try s.emit(types.NewString(\"insert\"), val)" then .next s (ev ++ [(d, opInsert)])
+  else if ph = "try s.emit(types.NewString(\"update\"), doc)" then .next s (ev ++ [(d, opUpdate)])
+  else if ph = "try s.emit(types.NewString(\"delete\"), doc)" then .next s (ev ++ [(d, opDelete)])
+  else .bad
+
+/-- the body of one iteration -/
+def runDoc : List String → State → PList → List (PList × Nat) → LStep
+  | [], s, _, ev => .next s ev
+  | ph :: rest, s, d, ev =>
+    match docPhase ph s d ev with
+    | .next s' ev' => runDoc rest s' d ev'
+    | r => r
+
+/-- `for _, doc := range docs { body }; return …` -/
+def runDocs (phases : List String) : State → List PList → List (PList × Nat) → Option (Mut × List (PList × Nat))
+  | s, [], ev => some ((s, none), ev)
+  | s, d :: ds, ev =>
+    match runDoc phases s d ev with
+    | .next s' ev' => runDocs phases s' ds ev'
+    | .stop m => some (m, ev)
+    | .bad => none
+
+/-- a loop of the expected form: a `range` over `docs` without `continue` / `break` -/
+def docLoop (l : Loop) : Bool :=
+  l.kind == "range" && l.header == "docs" && l.vars == "_,doc" && !l.hasContinue && !l.hasBreak
+
+end C13
+
+theorem C13.mutation_loops_facts :
+    insertLoops = 1 ∧
+    insertHeads = ["s.mu.Lock()", "defer s.mu.Unlock()", "for _, doc := range docs", "return nil"] ∧
+    insertPhases = ["val, err := types.Cast[types.Map](types.Marshal(doc))", "fail-if err != nil: err",
+      "try s.segment.Store(val)", "try s.emit(types.NewString(\"insert\"), val)"] ∧
+    updatePhases = ["try s.segment.Swap(doc)", "try s.emit(types.NewString(\"update\"), doc)"] ∧
+    upsertCond = "upsert && len(docs) == 0" ∧
+    upsertPhases = ["doc, err := types.Cast[types.Map](extract(f))", "fail-if err != nil: err", "doc, err = patch(doc, u)",
+      "fail-if err != nil: err", "try s.segment.Store(doc)", "try s.emit(types.NewString(\"insert\"), doc)", "return 1, nil"] ∧
+    deletePhases = ["try s.segment.Delete(doc.Get(types.NewString(\"id\")))", "try s.emit(types.NewString(\"delete\"), doc)"] ∧
+    C13.docLoop insertLoop = true ∧ C13.docLoop updateLoop = true ∧ C13.docLoop deleteLoop = true := by
+  decide
+
+theorem C13.insert_loop_as_modelled (s : State) (ds : List PList) :
+    C13.docLoop insertLoop = true ∧ insertLoops = 1 ∧
+    C13.runDocs insertPhases s ds [] = some (storeInsert s ds, insertEvents s ds) := by
+  have h : insertPhases = ["val, err := types.Cast[types.Map](types.Marshal(doc))", "fail-if err != nil: err",
+      "try s.segment.Store(val)", "try s.emit(types.NewString(\"insert\"), val)"] := by decide
+  refine ⟨by decide, by decide, ?_⟩
+  rw [h]
+  suffices ∀ ev, C13.runDocs _ s ds ev = some (storeInsert s ds, ev ++ insertEvents s ds) by simpa using this []
+  induction ds generalizing s with
+  | nil => intro ev; simp [C13.runDocs, storeInsert, insertEvents]
+  | cons d ds ih =>
+    intro ev
+    simp only [C13.runDocs, C13.runDoc, C13.docPhase]
+    simp (config := { decide := true }) only [if_true, if_false]
+    cases hs : segStore s d with
+    | mk s' e =>
+      cases e with
+      | none => simp [storeInsert, insertEvents, hs, ih]
+      | some r => simp [storeInsert, insertEvents, hs]
+
+theorem C13.update_loop_as_modelled (s : State) (ds : List PList) :
+    C13.docLoop updateLoop = true ∧
+    C13.runDocs updatePhases s ds [] = some (swapAll s ds, swapEvents s ds) := by
+  have h : updatePhases = ["try s.segment.Swap(doc)", "try s.emit(types.NewString(\"update\"), doc)"] := by decide
+  refine ⟨by decide, ?_⟩
+  rw [h]
+  suffices ∀ ev, C13.runDocs _ s ds ev = some (swapAll s ds, ev ++ swapEvents s ds) by simpa using this []
+  induction ds generalizing s with
+  | nil => intro ev; simp [C13.runDocs, swapAll, swapEvents]
+  | cons d ds ih =>
+    intro ev
+    simp only [C13.runDocs, C13.runDoc, C13.docPhase]
+    simp (config := { decide := true }) only [if_true, if_false]
+    cases hs : segSwap s d with
+    | mk s' e =>
+      cases e with
+      | none => simp [swapAll, swapEvents, hs, ih]
+      | some r => simp [swapAll, swapEvents, hs]
+
+theorem C13.delete_loop_as_modelled (s : State) (ds : List PList) :
+    C13.docLoop deleteLoop = true ∧
+    C13.runDocs deletePhases s ds [] = some (deleteAll s ds, deleteEvents s ds) := by
+  have h : deletePhases = ["try s.segment.Delete(doc.Get(types.NewString(\"id\")))",
+      "try s.emit(types.NewString(\"delete\"), doc)"] := by decide
+  refine ⟨by decide, ?_⟩
+  rw [h]
+  suffices ∀ ev, C13.runDocs _ s ds ev = some (deleteAll s ds, ev ++ deleteEvents s ds) by simpa using this []
+  induction ds generalizing s with
+  | nil => intro ev; simp [C13.runDocs, deleteAll, deleteEvents]
+  | cons d ds ih =>
+    intro ev
+    simp only [C13.runDocs, C13.runDoc, C13.docPhase]
+    simp (config := { decide := true }) only [if_true, if_false]
+    cases hs : segDelete s (mget d keyId) with
+    | mk s' e =>
+      cases e with
+      | none => simp [deleteAll, deleteEvents, hs, ih]
+      | some r => simp [deleteAll, deleteEvents, hs]
+
+/-- non-vacuity: two documents with the same id – the first is stored and its event emitted in its own iteration, the
+second is rejected; nothing is emitted for it and the first event stays. -/
+theorem C13.insert_loop_nonvacuous :
+    (C13.runDocs insertPhases Uniflow.Index.init
+        [.cons keyId (.int .w64 1) .nil, .cons keyId (.int .w64 1) .nil] []).map (fun r => (r.1.2, r.2.length))
+      = some (some (.err .keyDuplicate), 1) := by
+  decide
+
+/-! ## `store.emit` and `stream.Emit` -/
+
+/-- the elements a `range` loop reaches when it has no `continue` / `break` (a `return` inside is an error exit) -/
+def C13.visitsAll {α : Type} (l : Loop) (xs : List α) : Option (List α) :=
+  if l.kind = "range" ∧ l.hasContinue = false ∧ l.hasBreak = false then some xs else none
+
+theorem C13.emit_facts :
+    emitGuards = [("id == nil", "return errors.WithMessage(ErrKeyMissing, \"key: id\")")] ∧
+    emitHeads = ["id := doc.Get(types.NewString(\"id\"))", "if id == nil", "for _, strm := range s.streams", "return nil"] ∧
+    emitLoop = ⟨"range", "s.streams", "_,strm", false, false, true,
+      ["if ok, err := strm.Match(doc); err != nil", "  return err", "else", "  if ok",
+       "    strm.Emit(types.NewMap(types.NewString(\"op\"), op, types.NewString(\"id\"), id))"]⟩ := by
+  decide
+
+/-- `emit` offers the event to EVERY stream of `store.streams`, in order, and does not edit that list while it walks it
+(only `Watch` assigns `store.streams` – Generated/Locks): the model's `doc` step maps over all streams. -/
+theorem C13.emit_loop_as_modelled (st : Uniflow.Stream.St) (e : Uniflow.Stream.Event) (matched : List Nat) :
+    emitLoop.header = "s.streams" ∧
+    ((Uniflow.Generated.Locks.accesses_store_store.filter fun a => a.field == "streams" && a.write).map (·.meth)) = ["Watch"] ∧
+    (C13.visitsAll emitLoop st.streams).map
+        (·.map fun s => if matched.contains s.wid then s.emit e else s) =
+      some (Uniflow.Stream.step st (.doc e true matched)).1.streams := by
+  have h : emitLoop.kind = "range" ∧ emitLoop.hasContinue = false ∧ emitLoop.hasBreak = false := by decide
+  refine ⟨by decide, by decide, ?_⟩
+  simp [C13.visitsAll, h, Uniflow.Stream.step]
+
+/-- Which clause of `select { case <-s.done: …; default: … }` runs, and whether it sends on `in`: a ready communication
+is taken before `default`. `none`: a select this reading does not understand. -/
+def C13.selectSends (clauses : List (String × List String)) (done : Bool) : Option Bool :=
+  match clauses with
+  | [(c1, b1), (c2, b2)] =>
+    if c1 = "<-s.done" ∧ c2 = "default" then some ((if done then b1 else b2).contains "s.in <- doc") else none
+  | _ => none
+
+theorem C13.stream_emit_facts :
+    streamEmitHeads = ["s.mu.Lock()", "defer s.mu.Unlock()", "select"] ∧
+    streamEmitClauses = [("<-s.done", ["return false"]), ("default", ["s.in <- doc", "return true"])] ∧
+    streamCloseHeads = ["s.mu.Lock()", "defer s.mu.Unlock()", "select"] ∧
+    streamCloseClauses = [("<-s.done", ["return nil"]), ("default", ["close(s.done)", "return nil"])] := by
+  decide
+
+/-- `stream.Emit` takes the lock first and then – in the same critical section as `Close` – tests `done` and sends:
+the model's `Strm.emit` (refused once `done` is closed, handed to the pump otherwise). -/
+theorem C13.stream_emit_as_modelled (s : Uniflow.Stream.Strm) (e : Uniflow.Stream.Event) :
+    streamEmitHeads = ["s.mu.Lock()", "defer s.mu.Unlock()", "select"] ∧
+    s.emit e = (if C13.selectSends streamEmitClauses s.done = some true
+                then { s with queue := s.queue ++ [e], emitted := s.emitted ++ [e] } else s) := by
+  have h : streamEmitClauses = [("<-s.done", ["return false"]), ("default", ["s.in <- doc", "return true"])] := by decide
+  refine ⟨by decide, ?_⟩
+  rw [h]
+  cases hd : s.done <;> simp [C13.selectSends, Uniflow.Stream.Strm.emit, hd]
+
+/-! ## outlines -/
+
+/-- `store.Watch` (the stream is appended to `store.streams`; a goroutine removes it once it is done), `Insert`, `Update`, `Delete`, `emit`. -/
+theorem C13.store_outline_as_modelled :
+    outline_store_Watch = [
+      "s.mu.Lock()",
+      "defer s.mu.Unlock()",
+      "var f types.Map",
+      "if filter != nil",
+      "  var err error",
+      "  if f, err = types.Cast[types.Map](types.Marshal(filter)); err != nil",
+      "    return nil, err",
+      "strm := newStream(f)",
+      "s.streams = append(s.streams, strm)",
+      "if ctx.Done() != nil",
+      "  go func#1()",
+      "  func#1()",
+      "    select",
+      "      case <-ctx.Done()",
+      "        _ = strm.Close(ctx)",
+      "      case <-strm.Done()",
+      "go func#2()",
+      "func#2()",
+      "  <-strm.Done()",
+      "  s.mu.Lock()",
+      "  defer s.mu.Unlock()",
+      "  for i := 0; i < len(s.streams); i++",
+      "    if s.streams[i] == strm",
+      "      s.streams = append(s.streams[:i], s.streams[i+1:]...)",
+      "      break",
+      "return strm, nil"] ∧
+    outline_store_Insert = [
+      "s.mu.Lock()",
+      "defer s.mu.Unlock()",
+      "for _, doc := range docs",
+      "  val, err := types.Cast[types.Map](types.Marshal(doc))",
+      "  if err != nil",
+      "    return err",
+      "  if err := s.segment.Store(val); err != nil",
+      "    return err",
+      "  if err := s.emit(types.NewString(\"insert\"), val); err != nil",
+      "    return err",
+      "return nil"] ∧
+    outline_store_Update = [
+      "s.mu.Lock()",
+      "defer s.mu.Unlock()",
+      "var upsert bool",
+      "for _, opt := range opts",
+      "  if opt.Upsert",
+      "    upsert = opt.Upsert",
+      "var f types.Map",
+      "if filter != nil",
+      "  var err error",
+      "  if f, err = types.Cast[types.Map](types.Marshal(filter)); err != nil",
+      "    return 0, err",
+      "u, err := types.Cast[types.Map](types.Marshal(update))",
+      "if err != nil",
+      "  return 0, err",
+      "docs, err := s.find(f)",
+      "if err != nil",
+      "  return 0, err",
+      "if _, err := patch(types.NewMap(), u); err != nil",
+      "  return 0, err",
+      "if upsert && len(docs) == 0",
+      "  doc, err := types.Cast[types.Map](extract(f))",
+      "  if err != nil",
+      "    return 0, err",
+      "  doc, err = patch(doc, u)",
+      "  if err != nil",
+      "    return 0, err",
+      "  if err := s.segment.Store(doc); err != nil",
+      "    return 0, err",
+      "  if err := s.emit(types.NewString(\"insert\"), doc); err != nil",
+      "    return 0, err",
+      "  return 1, nil",
+      "for i := 0; i < len(docs); i++",
+      "  doc, err := patch(docs[i], u)",
+      "  if err != nil",
+      "    return 0, err",
+      "  docs[i] = doc",
+      "for _, doc := range docs",
+      "  if err := s.segment.Swap(doc); err != nil",
+      "    return 0, err",
+      "  if err := s.emit(types.NewString(\"update\"), doc); err != nil",
+      "    return 0, err",
+      "return len(docs), nil"] ∧
+    outline_store_Delete = [
+      "s.mu.Lock()",
+      "defer s.mu.Unlock()",
+      "var f types.Map",
+      "if filter != nil",
+      "  var err error",
+      "  if f, err = types.Cast[types.Map](types.Marshal(filter)); err != nil",
+      "    return 0, err",
+      "docs, err := s.find(f)",
+      "if err != nil",
+      "  return 0, err",
+      "for _, doc := range docs",
+      "  if err := s.segment.Delete(doc.Get(types.NewString(\"id\"))); err != nil",
+      "    return 0, err",
+      "  if err := s.emit(types.NewString(\"delete\"), doc); err != nil",
+      "    return 0, err",
+      "return len(docs), nil"] ∧
+    outline_store_emit = [
+      "id := doc.Get(types.NewString(\"id\"))",
+      "if id == nil",
+      "  return errors.WithMessage(ErrKeyMissing, \"key: id\")",
+      "for _, strm := range s.streams",
+      "  if ok, err := strm.Match(doc); err != nil",
+      "    return err",
+      "  else",
+      "    if ok",
+      "      strm.Emit(types.NewMap(types.NewString(\"op\"), op, types.NewString(\"id\"), id))",
+      "return nil"] := by
+  decide
+
+/-- `stream.Match` / `Emit` / `Next` / `Close` and the pump goroutine of `newStream` (Model/Stream.lean `Pump`). -/
+theorem C13.stream_outline_as_modelled :
+    outline_stream_Match = [
+      "if s.filter == nil",
+      "  return true, nil",
+      "return match(doc, s.filter)"] ∧
+    outline_stream_Emit = [
+      "s.mu.Lock()",
+      "defer s.mu.Unlock()",
+      "select",
+      "  case <-s.done",
+      "    return false",
+      "  default",
+      "    s.in <- doc",
+      "    return true"] ∧
+    outline_stream_Next = [
+      "select",
+      "  case <-ctx.Done()",
+      "    return false",
+      "  case doc, ok := <-s.out",
+      "    s.doc = doc",
+      "    return ok"] ∧
+    outline_stream_Close = [
+      "s.mu.Lock()",
+      "defer s.mu.Unlock()",
+      "select",
+      "  case <-s.done",
+      "    return nil",
+      "  default",
+      "    close(s.done)",
+      "    return nil"] ∧
+    outline_newStream = [
+      "c := &stream{ filter: filter, in: make(chan types.Map), out: make(chan types.Map), done: make(chan struct{}), }",
+      "go func#1()",
+      "func#1()",
+      "  defer close(c.out)",
+      "  defer close(c.in)",
+      "  buffer := make([]types.Map, 0, 2)",
+      "  for",
+      "    var event types.Map",
+      "    select",
+      "      case event = <-c.in",
+      "      case <-c.done",
+      "        return",
+      "    select",
+      "      case c.out <- event",
+      "      case <-c.done",
+      "        return",
+      "      default",
+      "        buffer = append(buffer, event)",
+      "        for len(buffer) > 0",
+      "          select",
+      "            case event = <-c.in",
+      "              buffer = append(buffer, event)",
+      "            case c.out <- buffer[0]",
+      "              buffer = buffer[1:]",
+      "            case <-c.done",
+      "              return",
+      "return c"] := by
   decide
